@@ -8,7 +8,6 @@ use crate::ingester::ChunkMetadata;
 use crate::metadata::MetadataClient;
 use crate::Result;
 use arrow::array::RecordBatch;
-use arrow::datatypes::DataType;
 use bytes::Bytes;
 use object_store::ObjectStore;
 use parquet::arrow::arrow_reader::ParquetRecordBatchReaderBuilder;
@@ -682,20 +681,9 @@ impl ShardSplitter {
         batch: &RecordBatch,
         split_point: &[u8],
     ) -> Result<(RecordBatch, RecordBatch)> {
-        let ts_column = batch
-            .column_by_name("timestamp")
-            .ok_or_else(|| crate::Error::Internal("Missing timestamp column".to_string()))?;
-
-        let ts_array = if let DataType::Int64 = ts_column.data_type() {
-            ts_column
-                .as_any()
-                .downcast_ref::<arrow::array::Int64Array>()
-                .ok_or_else(|| crate::Error::Internal("Timestamp not Int64".to_string()))?
-        } else {
-            return Err(crate::Error::Internal(
-                "Timestamp column is not Int64".to_string(),
-            ));
-        };
+        // Timestamp(Nanosecond) and Int64 columns both carry nanoseconds
+        let ts_values = super::timestamp_nanos(batch)?;
+        let ts_array = &ts_values;
 
         let mut indices_a = Vec::new();
         let mut indices_b = Vec::new();
@@ -743,13 +731,9 @@ impl ShardSplitter {
             .put(&object_path, Bytes::from(buffer).into())
             .await?;
 
-        let ts_column = batch
-            .column_by_name("timestamp")
-            .ok_or_else(|| crate::Error::Internal("Missing timestamp column".to_string()))?;
-        let ts_array = ts_column
-            .as_any()
-            .downcast_ref::<arrow::array::Int64Array>()
-            .ok_or_else(|| crate::Error::Internal("Timestamp not Int64".to_string()))?;
+        // Timestamp(Nanosecond) and Int64 columns both carry nanoseconds
+        let ts_values = super::timestamp_nanos(&batch)?;
+        let ts_array = &ts_values;
 
         let min_timestamp = (0..batch.num_rows())
             .map(|i| ts_array.value(i))
